@@ -5,7 +5,7 @@ UNLIKELY_IDS = ['nullPointer', 'zerodiv', 'memleak', 'uninitvar', 'arrayIndexOut
                 'unreadVariable', 'noSuchId', 'resourceLeak']
 
 
-def add_inline(rng, proj, fs, frac=0.4, unmatched=2, in_headers=True):
+def add_inline(rng, proj, fs, frac=0.4, unmatched=2, in_headers=True, blocks=0.0):
     """Return (new Project, list of inserted comments) with `// cppcheck-suppress id` lines
     inserted above a random subset of the findings `fs` (findings.Finding of the *unmodified*
     project, relative paths) and `unmatched` suppressions that match nothing.
@@ -21,6 +21,14 @@ def add_inline(rng, proj, fs, frac=0.4, unmatched=2, in_headers=True):
             continue
         if rng.random() < frac:
             form = rng.random()
+            if rng.random() < blocks:
+                # block form: begin above the finding, end some lines further down (possibly far: the range then covers
+                # the lines on which *other* files have findings with the same id)
+                nlines = proj.files[file].count('\n') + 1
+                end = min(nlines + 1, line + 1 + rng.choice([0, 1, 3, 10, 40, 200]))
+                ins.setdefault(file, []).append((end, '// cppcheck-suppress-end %s' % f.id))
+                ins.setdefault(file, []).append((line, '// cppcheck-suppress-begin %s' % f.id))
+                continue
             if f.symbols and form < 0.15:
                 # with a symbol name: travels through Suppression::toString()/parseLine() between worker and parent
                 txt = '// cppcheck-suppress %s symbolName=%s' % (f.id, f.symbols[0])
